@@ -19,11 +19,13 @@ namespace C11Drv
 def cfg : Cfg := MirVerif.Gen.C11.cfg
 
 /-- the generated configuration with some of the known reader quirks switched off
-(`g` = hard register name read twice, `c` = insn code bound, `p` = data of type p) -/
+(`g` = hard register name read twice, `c` = insn code bound, `p` = data of type p,
+`e` = labels before endfunc) -/
 def cfgOff (flags : String) : Cfg :=
   { cfg with globalDoubleRead := cfg.globalDoubleRead && !flags.contains 'g',
              codeLimit := if flags.contains 'c' then MirVerif.Gen.C11.insnBound else cfg.codeLimit,
-             dataPtr := cfg.dataPtr || flags.contains 'p' }
+             dataPtr := cfg.dataPtr || flags.contains 'p',
+             endfuncLabels := cfg.endfuncLabels || flags.contains 'e' }
 
 def hexDigit (n : Nat) : Char := if n < 10 then Char.ofNat (48 + n) else Char.ofNat (87 + n)
 
